@@ -182,6 +182,25 @@ def replay_refs(state):
         cleanup()
 
 
+def replay_refs_kind(state):
+    """outcome kind of statham.__main__.main on the document set (all C20 needs)"""
+    from statham.__main__ import main
+    from statham.schema.exceptions import FeatureNotImplementedError, SchemaParseError
+    uri, cleanup = drive.materialized(files_of(state))
+    try:
+        try:
+            main(uri)
+            return {"kind": "ok"}
+        except FeatureNotImplementedError:
+            return {"kind": "notimpl"}
+        except SchemaParseError as exc:
+            return {"kind": "parseerr", "msg": str(exc)[:100]}
+        except Exception as exc:  # noqa
+            return {"kind": "other:" + type(exc).__name__, "msg": str(exc)[:120]}
+    finally:
+        cleanup()
+
+
 # ------------------------------------------------------------------ C02: the module the MODEL predicts
 def module_struct(text):
     """generated module text -> the structure PyModule.tla predicts (read back with ast)"""
@@ -365,7 +384,10 @@ def collect(rep, pid, tier, replay_file=None):
             states.append(dict(doc=s["doc"], cyclic=False, uns=False, edges=[], nodes=[], allowed=s["allowed"]))
         extra["document_family_states"] = len(more)
     if pid in ("C02", "C20", "C07"):
-        obs = drive.pmap(replay_refs, states, chunksize=32)
+        if pid == "C20":
+            states = [dict(nodes=s["nodes"], edges=s["edges"], doc=s["doc"], cyclic=s["cyclic"], uns=s["uns"])
+                      for s in states]
+        obs = drive.pmap(replay_refs_kind if pid == "C20" else replay_refs, states, chunksize=32)
         for si, (st, ob) in enumerate(zip(states, obs)):
             stats[ob["kind"]] += 1
             if pid == "C20":
@@ -451,7 +473,7 @@ def collect(rep, pid, tier, replay_file=None):
         else:
             shape = ",".join(sorted({e[1] for e in st["edges"]})) + "|" + ",".join(n["shape"] for n in st["nodes"])
             rep.violation((pid, clause, shape),
-                          f"{clause}: documents {json.dumps(ob['files'])[:400]} -> {ob.get('kind')} "
+                          f"{clause}: documents {json.dumps(ob.get('files') or files_of(st))[:400]} -> {ob.get('kind')} "
                           f"{ob.get('msg', '')} {ob.get('exec_err', '')} classes={[c['name'] for c in ob.get('classes', [])]} parsed={ob.get('parsed')}",
                           dict(state=st, observed={k: v for k, v in ob.items() if k not in ('root_elem',)}))
 
@@ -470,7 +492,8 @@ def collect(rep, pid, tier, replay_file=None):
               "C09": "one case = one document set generated under several PYTHONHASHSEED values in separate processes; non-trivial = distinct outputs",
               "C20": "one case = one document set; non-trivial = distinct cyclic / unsupported reference graphs",
               "C07": "one case = one document set whose definitions are shared and re-parsed"}[pid],
-        samples=[dict(files=(obs[i].get("files") if obs[i] else states[i].get("files")),
+        samples=[dict(files=(obs[i].get("files") if obs[i] and obs[i].get("files") else
+                             (states[i].get("files") or (files_of(states[i]) if "doc" in states[i] else None))),
                       outcome=obs[i].get("kind"), classes=[c["name"] for c in obs[i].get("classes", [])])
                  for i in (1, len(states) // 2, len(states) - 1) if i < len(states)],
         exhaustive=False, bounds=TIERS[tier], bfs_exhaustive_within_bound=True, tlc=meta,
